@@ -323,7 +323,7 @@ inductive PState | starting | running | stopping
 deriving DecidableEq, Repr
 
 def setPState (ps : PState) : S → S :=
-  setP fun p => match ps with
+  setP fun p => if p.pid == 0 then p else match ps with
     | .starting => { p with running := false, killing := false }
     | .running => { p with running := true, killing := false }
     | .stopping => { p with running := false, killing := true }
